@@ -5,6 +5,7 @@ an empty namespace, adds the target module's own classes, interprets TypedDict c
 the AST, and evaluates annotation expressions to RT terms.  Every failure is recorded as an event
 (kind, detail, location) - it never raises for stub content."""
 import ast
+import re
 import builtins
 import typing
 
@@ -144,6 +145,31 @@ class StubEval:
                 if qual in self.funcs:
                     self.events.append(("function-duplicated", qual, qual))
                 self.funcs[qual] = FuncInfo(qual, node, list(path))
+
+    def collided_closure(self):
+        """Names of generated TypedDict classes that are defined twice, plus every TypedDict class whose body
+        mentions one of them (directly or through other classes): annotations naming any of these are explained
+        by the name collision."""
+        bad = {loc.split()[-1] for kind, _d, loc in self.events if kind == "typeddict-class-name-collision"}
+        if not bad:
+            return bad
+        mentions = {}
+        for name, node in self.td_nodes.items():
+            words = set()
+            for sub in ast.walk(node):
+                if isinstance(sub, ast.Name):
+                    words.add(sub.id)
+                elif isinstance(sub, ast.Constant) and isinstance(sub.value, str):
+                    words.update(re.findall(r"[A-Za-z_][A-Za-z_0-9]*", sub.value))
+            mentions[name.split("#")[0]] = mentions.get(name.split("#")[0], set()) | words
+        changed = True
+        while changed:
+            changed = False
+            for name, words in mentions.items():
+                if name not in bad and words & bad:
+                    bad.add(name)
+                    changed = True
+        return bad
 
     def _td_spec(self, name, stack):
         if name in self.td_specs:
